@@ -3,6 +3,7 @@
  *
  *   thread_obj_replay <thread|mutex|cond> <scriptfile> [first]
  *   thread_obj_replay probe-done         what spif_pthreads_done() does to a RUNNING thread, in a forked child
+ *   thread_obj_replay probe-stubs        which wrappers have any effect at all (labels findings, decides nothing)
  *
  * State token {lo=[{cr=..,lk=..},{..}],th=[s1,s2]}:
  *   th[i]  none | plain | func | run | rund - read back from the object (NULL, main_func, handle) + the harness's own note
@@ -163,8 +164,77 @@ static int probe_done(void) {
 }
 
 static void *warm(void *p) { usleep(2000); return p; }
+/* Which wrappers have any effect at all?  One line "PROBE effect lock=.. try=.. unlock=.. wait=.. wait_timed=.. signal=..
+ * broadcast=.. wait_for=..".  Used ONLY to label findings ("[no-effect wrapper]": the function is an empty stub) so that the
+ * recorded known findings stop applying the moment a wrapper is implemented - the verdicts themselves are TLC's. */
+static spif_pthreads_condition_t PC;
+static int p_returned, p_woken, p_fin;
+static void *p_waiter(void *timed) {            /* calls the WRAPPER's wait with the mutex raw-locked */
+    pthread_mutex_lock(&SPIF_PTHREADS_MUTEX(PC)->mutex);
+    if (timed) spif_pthreads_condition_wait_timed(PC, 100000); else spif_pthreads_condition_wait(PC);
+    __atomic_store_n(&p_returned, 1, __ATOMIC_SEQ_CST);
+    pthread_mutex_unlock(&SPIF_PTHREADS_MUTEX(PC)->mutex);        /* harmless if the wrapper left it unlocked */
+    return NULL;
+}
+static void *p_sleeper(void *arg) {             /* waits RAW; woken by the WRAPPER's signal/broadcast? */
+    (void) arg;
+    pthread_mutex_lock(&SPIF_PTHREADS_MUTEX(PC)->mutex);
+    __atomic_store_n(&p_returned, 1, __ATOMIC_SEQ_CST);           /* "asleep" (the mutex is released by the wait below) */
+    pthread_cond_wait(&PC->cond, &SPIF_PTHREADS_MUTEX(PC)->mutex);
+    __atomic_store_n(&p_woken, 1, __ATOMIC_SEQ_CST);
+    pthread_mutex_unlock(&SPIF_PTHREADS_MUTEX(PC)->mutex);
+    return NULL;
+}
+static spif_thread_data_t p_worker(spif_thread_data_t self) { (void) self; usleep(30000); __atomic_store_n(&p_fin, 1, __ATOMIC_SEQ_CST); return NULL; }
+static int ld(int *p) { return __atomic_load_n(p, __ATOMIC_SEQ_CST); }
+static int probe_wait(int timed) {
+    pthread_t h; int blocks, n = 0;
+    PC = spif_pthreads_condition_new(); p_returned = 0;
+    pthread_create(&h, NULL, p_waiter, timed ? (void *) 1 : NULL);
+    usleep(60000);
+    blocks = !ld(&p_returned);
+    while (!ld(&p_returned) && n++ < 2000) {                      /* wake it (raw) until it is gone */
+        pthread_mutex_lock(&SPIF_PTHREADS_MUTEX(PC)->mutex); pthread_cond_broadcast(&PC->cond); pthread_mutex_unlock(&SPIF_PTHREADS_MUTEX(PC)->mutex);
+        usleep(1000);
+    }
+    pthread_join(h, NULL);
+    spif_pthreads_condition_del(PC);
+    return blocks;
+}
+static int probe_wake(int bcast) {
+    pthread_t h; int woke, n = 0;
+    PC = spif_pthreads_condition_new(); p_returned = p_woken = 0;
+    pthread_create(&h, NULL, p_sleeper, NULL);
+    while (!ld(&p_returned) && n++ < 2000) usleep(500);
+    pthread_mutex_lock(&SPIF_PTHREADS_MUTEX(PC)->mutex);          /* obtained only once the sleeper is inside pthread_cond_wait */
+    if (bcast) spif_pthreads_condition_broadcast(PC); else spif_pthreads_condition_signal(PC);
+    pthread_mutex_unlock(&SPIF_PTHREADS_MUTEX(PC)->mutex);
+    for (n = 0; n < 200 && !ld(&p_woken); n++) usleep(1000);
+    woke = ld(&p_woken);
+    while (!ld(&p_woken)) { pthread_mutex_lock(&SPIF_PTHREADS_MUTEX(PC)->mutex); pthread_cond_broadcast(&PC->cond); pthread_mutex_unlock(&SPIF_PTHREADS_MUTEX(PC)->mutex); usleep(1000); }
+    pthread_join(h, NULL);
+    spif_pthreads_condition_del(PC);
+    return woke;
+}
+static int probe_stubs(void) {
+    spif_pthreads_mutex_t m = spif_pthreads_mutex_new(); spif_pthreads_t me, w;
+    int lock, try_, unlock, wait_, twait, sig, bc, join;
+    spif_pthreads_mutex_lock(m); lock = really_locked(SPIF_OBJ(m)); if (lock) pthread_mutex_unlock(&m->mutex);
+    spif_pthreads_mutex_lock_nowait(m); try_ = really_locked(SPIF_OBJ(m)); if (try_) pthread_mutex_unlock(&m->mutex);
+    pthread_mutex_lock(&m->mutex); spif_pthreads_mutex_unlock(m); unlock = !really_locked(SPIF_OBJ(m)); if (!unlock) pthread_mutex_unlock(&m->mutex);
+    spif_pthreads_mutex_del(m);
+    wait_ = probe_wait(0); twait = probe_wait(1); sig = probe_wake(0); bc = probe_wake(1);
+    me = spif_pthreads_new(); w = spif_pthreads_new_with_func(p_worker, NULL); p_fin = 0;
+    if (!spif_pthreads_run(w)) return 2;
+    spif_pthreads_wait_for(me, w); join = ld(&p_fin);
+    if (!join) pthread_join(spif_pthreads_get_handle(w), NULL);
+    spif_pthreads_set_handle(w, (pthread_t) 0); spif_pthreads_del(w); spif_pthreads_del(me);
+    printf("PROBE effect lock=%d try=%d unlock=%d wait=%d wait_timed=%d signal=%d broadcast=%d wait_for=%d\n", lock, try_, unlock, wait_, twait, sig, bc, join);
+    return 0;
+}
 int main(int argc, char **argv) {
     if (argc >= 2 && !strcmp(argv[1], "probe-done")) return probe_done();
+    if (argc >= 2 && !strcmp(argv[1], "probe-stubs")) return probe_stubs();
     if (argc < 3) return 2;
     part = argv[1];
     libast_set_program_name("thread_obj_replay");
